@@ -42,6 +42,10 @@ def opMerkle (args : List String) (impl : String) : Verdict :=
       | ["reset"] => ({ s with tree := reset s.tree, leaves := some [], rooted := false, specRoot := none, specPaths := [], nodup := true, implRoot := none, implPaths := [] }, io)
       | ["push", hx] =>
         let d := (unhex hx).getD []
+        if io.headD "" = "push=panic" ∧ (pushLeaf c s.tree d).isOk then
+          ({ s with stop := true, outs := "push=panic" :: s.outs,
+                    l1 := some ("push_leaf panicked on a leaf of " ++ toString d.length ++ " bytes (the tree must take arbitrary leaf bytes)") }, io.drop 1)
+        else
         match pushLeaf c s.tree d with
         | .ok t => ({ s with tree := t, leaves := if s.rooted then none else s.leaves.map (· ++ [d]),
                               nodup := s.nodup && !((s.leaves.getD []).contains d) }, io)
